@@ -156,6 +156,7 @@ class cache(dict):
             return self.pop(keys, *value)
         if len(value):
             return [self.pop(k, *value) for k in keys]
+        keys = list(keys) # walked twice below: an iterator would be used up by the first pass
         memo = self.fromkeys(self.keys())
         [memo.pop(k) for k in keys]
         return [self.pop(k) for k in keys]
@@ -473,6 +474,7 @@ class dir_archive(archive):
             return self.pop(keys, *value)
         if len(value):
             return [self.pop(k, *value) for k in keys]
+        keys = list(keys) # walked twice below: an iterator would be used up by the first pass
         memo = self._keydict() # 'shadow' dict for desired error behavior
         [memo.pop(k) for k in keys]
         return [self.pop(k) for k in keys]
@@ -1136,6 +1138,7 @@ if sql:
               return self.pop(keys, *value)
           if len(value):
               return [self.pop(k, *value) for k in keys]
+          keys = list(keys) # walked twice below: an iterator would be used up by the first pass
           memo = self.fromkeys(self._keys()) # 'shadow' dict
           [memo.pop(k) for k in keys]
           return [self.pop(k) for k in keys]
@@ -1477,6 +1480,7 @@ if sql:
               return self.pop(keys, *value)
           if len(value):
               return [self.pop(k, *value) for k in keys]
+          keys = list(keys) # walked twice below: an iterator would be used up by the first pass
           memo = self.fromkeys(self.keys()) # 'shadow' dict
           [memo.pop(k) for k in keys]
           return [self.pop(k) for k in keys]
@@ -1710,6 +1714,7 @@ else:
               return self.pop(keys, *value)
           if len(value):
               return [self.pop(k, *value) for k in keys]
+          keys = list(keys) # walked twice below: an iterator would be used up by the first pass
           memo = self.fromkeys(self.keys()) # 'shadow' dict
           [memo.pop(k) for k in keys]
           return [self.pop(k) for k in keys]
@@ -2003,6 +2008,7 @@ if hdf:
               return self.pop(keys, *value)
           if len(value):
               return [self.pop(k, *value) for k in keys]
+          keys = list(keys) # walked twice below: an iterator would be used up by the first pass
           memo = self.fromkeys(self.keys()) # 'shadow' dict
           [memo.pop(k) for k in keys]
           return [self.pop(k) for k in keys] #XXX: should open file once
@@ -2195,6 +2201,7 @@ if hdf:
               return self.pop(keys, *value)
           if len(value):
               return [self.pop(k, *value) for k in keys]
+          keys = list(keys) # walked twice below: an iterator would be used up by the first pass
           memo = self._keydict() # 'shadow' dict for desired error behavior
           [memo.pop(k) for k in keys]
           return [self.pop(k) for k in keys]
